@@ -30,6 +30,14 @@ def repo_dir():
     return os.environ.get("VERIF_REPO", "/repo")
 
 
+def evidence_dir():
+    """Evidence under /verif/evidence is only ever written by runs against /repo itself;
+    runs against another tree (mutation demonstrations) write to a scratch location."""
+    if os.path.realpath(repo_dir()) == "/repo":
+        return os.path.join(VERIF, "evidence")
+    return os.environ.get("VERIF_EVIDENCE_DIR", os.path.join(tempfile.gettempdir(), "vp-evidence-alt"))
+
+
 class EngineError(Exception):
     pass
 
@@ -242,7 +250,7 @@ class Verdict:
         self.pid, self.tier, self.seed = pid, tier, seed
         self.t0 = time.time()
         try:
-            os.remove(os.path.join(VERIF, "evidence", "%s.json" % pid))   # never leave stale evidence behind
+            os.remove(os.path.join(evidence_dir(), "%s.json" % pid))   # never leave stale evidence behind
         except OSError:
             pass
         self.known = [k for k in load_known() if k.get("property") == pid]
@@ -309,8 +317,8 @@ class Verdict:
               "violations": len(self.new),
               "known_findings_hit": sorted(self.known_hit.keys()),
               "repo": repo_dir()}
-        os.makedirs(os.path.join(VERIF, "evidence"), exist_ok=True)
-        with open(os.path.join(VERIF, "evidence", "%s.json" % self.pid), "w") as f:
+        os.makedirs(evidence_dir(), exist_ok=True)
+        with open(os.path.join(evidence_dir(), "%s.json" % self.pid), "w") as f:
             json.dump(ev, f, indent=1)
         print("%s %s: %s  (%.1fs)" % (self.pid, self.tier, "VIOLATED" if self.new else "held", wall))
         return EXIT_VIOLATION if self.new else EXIT_HELD
